@@ -17,10 +17,13 @@ LEVEL_TEXT = ('Generated layout-hostile files, fgenlab programs and repository s
               'assignment target, unit / type name, comment text) must occur in the text at the recorded lines.')
 LEVEL_NOTE = ('Sampling, not exhaustive. The name anchors are what detects shifted spans (the FP frontend cuts the string out of '
               'the raw text by span, so string-vs-lines alone would be vacuous there). Spans that are too wide but still contain the '
-              'statement are not detected. Files with preprocessor directives are excluded (C05 covers source sanitising).')
+              'statement are not detected. Repository files with preprocessor directives are excluded (C05 covers the content of '
+              'sanitised sources; the sanitiser slice here only checks that locations survive sanitising).')
 RULE = ('Case = one source file (60 % hostilegen with continuation lines, ;-joined statements, labels, comments between continuation '
         'lines, mixed case, tabs; 25 % fgenlab with layout flags; 15 % repository sources without cpp directives; 12 % of all '
-        'cases get 1-3 blank/comment lines prepended, comments inside continued statements only in a 12 % slice), parsed with FP and with REGEX (AllClasses). Non-trivial = both parses '
+        'cases get 1-3 blank/comment lines prepended, comments inside continued statements only in a 12 % slice; ~13 % of the '
+        'cases get lines the FP sanitiser rewrites: @PROCESS directive lines at the top / between units and a unit with multi-line '
+        'OPEN(NEWUNIT=, CONVERT=) and __FILE__ / __LINE__ tokens), parsed with FP and with REGEX (AllClasses). Non-trivial = both parses '
         'succeeded and >= 30 nodes with Source were checked; distinct = hash of the text.')
 CASES = {'quick': 480, 'thorough': 7000}
 MIN_NONTRIVIAL = {'quick': 250, 'thorough': 3500}
@@ -94,7 +97,71 @@ def make_source(rng):
         lead = rng.choice(['blank', 'comment'])
         text = ('\n' * n if lead == 'blank' else '! leading comment line\n' * n) + text
         feats = feats | {'leading-' + lead}
+    elif kind != 'corpus' and rng.random() < 0.17:
+        # slice: lines that the FP sanitiser rewrites (spans and anchors after them must still be right)
+        text, sfeats = add_sanitiser_lines(rng, text)
+        feats = feats | sfeats | {'slice-sanitiser-lines'}
     return kind, text, feats, risky, lead
+
+
+SAN_DIRECTIVES = ['@PROCESS NOCHECK', '@PROCESS HOT(NOVECTOR) NOSTRICT', '@PROCESS', '  @PROCESS NOOPT', '@PROCESS NOCHECK ! dir']
+
+
+def sanitiser_unit(rng):
+    """A free subroutine whose lines the FP sanitiser rewrites in place: OPEN statements with NEWUNIT= / CONVERT=
+    (one of them continued over several lines) and __LINE__ / __FILE__ tokens in code.  Neighbouring statements assign
+    to different names that do not occur on the adjacent lines, so a span that is off by one line misses its anchor."""
+    def kw(w):
+        return rng.choice([w, w.upper()])
+
+    def open_stmt(unit, fname, multi):
+        args = [f"{kw('newunit')}={unit}", f"{kw('file')}='{fname}'", f"{kw('status')}='replace'",
+                f"{kw('form')}='unformatted'", kw('convert') + '=' + rng.choice(["'BIG_ENDIAN'", '"LITTLE_ENDIAN"', "'big_endian'"])]
+        rng.shuffle(args)
+        opn = rng.choice(['open', 'OPEN', 'Open']) + rng.choice(['(', ' ('])
+        if not multi:
+            return [f"  {opn}{', '.join(args)})"]
+        k1 = rng.randint(1, 2)
+        k2 = rng.randint(k1 + 1, 4)
+        lead = rng.choice(['     & ', '       '])
+        out = [f"  {opn}{', '.join(args[:k1])}, &", f"{lead}{', '.join(args[k1:k2])}, &", f"{lead}{', '.join(args[k2:])})"]
+        return out
+    L = ['subroutine c20san(kunit, kline, cdfile, kother)', '  integer, intent(out) :: kunit',
+         '  integer, intent(inout) :: kline', '  character(len=*), intent(out) :: cdfile',
+         '  integer, intent(out) :: kother', '  integer :: jrec', '  real :: zval']
+    body = [['  jrec = 3'], open_stmt('kunit', 'c20a.dat', True), [f'  kline = {rng.randint(2, 9)} + __LINE__'],
+            ['  cdfile = __FILE__'], ['  zval = 1.5'], open_stmt('kother', 'c20b.dat', rng.random() < 0.4),
+            ['  jrec = jrec*2 + __LINE__'], ['  zval = zval*0.5'], ['  cdfile = __FILE__ // "x"']]
+    if rng.random() < 0.5:
+        body.insert(rng.randint(1, len(body)), ['  ! __LINE__ and __FILE__ in a comment stay as they are'])
+    for b in body:
+        L += b
+    L += ['  close(kunit)', '  close(kother)', 'end subroutine c20san']
+    return '\n'.join(L) + '\n'
+
+
+def add_sanitiser_lines(rng, text):
+    """Lines that Loki's FP source sanitiser rewrites (loki/frontend/preprocessing.py: IBM_DIRECTIVES,
+    STRING_PP_DIRECTIVES, INTEGER_PP_DIRECTIVES, CONVERT_ENDIAN, OPEN_NEWUNIT): an @PROCESS directive line at the top
+    of the file and / or between two program units, and a unit with OPEN(NEWUNIT=, CONVERT=) and __FILE__ / __LINE__
+    before or after the generated text."""
+    if not text.endswith('\n'):
+        text += '\n'
+    unit = sanitiser_unit(rng)
+    top = rng.random() < 0.6
+    between = (not top) or rng.random() < 0.6
+    parts = [unit, text] if rng.random() < 0.35 else [text, unit]
+    feats = {'san-unit-first' if parts[0] is unit else 'san-unit-last'}
+    out = ''
+    if top:
+        out += rng.choice(SAN_DIRECTIVES) + '\n'
+        feats.add('san-process-top')
+    out += parts[0]
+    if between:
+        out += (rng.choice(SAN_DIRECTIVES) + '\n') * rng.choice([1, 1, 2])
+        feats.add('san-process-between-units')
+    out += parts[1]
+    return out, feats
 
 
 def node_anchors(node):
